@@ -75,18 +75,40 @@ def check_grid(ctx, rule, prog):
                 ones = [p for p in parts if try_fold(p) == 1]
                 rest = [p for p in parts if try_fold(p) != 1]
                 if len(ones) == 1 and len(rest) == 1:
-                    t = norm(rest[0]).replace(' ', '')
-                    span = '(%s-%s)/%s' % (hi, lo, step)
-                    if span in t and ('round(' in t or ('int(' in t and '+' in t.split(span)[1])):
-                        n_ok = True
-                    if 'floor' in t and '+' not in t.split(span)[1]:
-                        n_ok = False
+                    n_ok = _floor_count(rest[0], fn, hi, lo, step)
         ok = y_ok and n_ok
         why = 'yield %s, count %s' % ('ok' if y_ok else 'not min + i*step',
-                                     'ok' if n_ok else 'not round((max-min)/step) + 1')
+                                     'ok' if n_ok else 'not floor((max-min)/step + eps) + 1')
     ctx.ob(rule, key, ok,
-           'the grid is index based: min + i*step for i in range(n + 1) with n the rounded '
-           'number of steps, so both end points are always produced (%s)' % why, mod, fn)
+           'the grid is index based: min + i*step for i in range(n + 1) with n = floor((max - min)/step '
+           '+ eps): the upper end is produced when the step divides the range and never exceeded '
+           'otherwise; round() overshoots by one point whenever the remainder is half a step or more '
+           '(%s)' % why, mod, fn)
+
+
+def _floor_count(expr, fn, hi, lo, step):
+    """expr is int(Q + eps) / math.floor(Q + eps) (possibly through one local)
+    with Q = (hi - lo) / step and a small positive constant eps."""
+    if isinstance(expr, ast.Name):
+        defs = [st for st in walk_no_nested(fn) if isinstance(st, ast.Assign)
+                and norm(st.targets[0]) == expr.id]
+        if len(defs) != 1:
+            return False
+        expr = defs[0].value
+    if not (isinstance(expr, ast.Call) and call_name(expr) in ('int', 'math.floor') and len(expr.args) == 1):
+        return False
+    inner = expr.args[0]
+    if not (isinstance(inner, ast.BinOp) and isinstance(inner.op, ast.Add)):
+        return False
+    sides = [inner.left, inner.right]
+    eps = [x for x in sides if isinstance(try_fold(x), float) and 0 < try_fold(x) <= 1e-6]
+    quo = [x for x in sides if try_fold(x) is None]
+    if len(eps) != 1 or len(quo) != 1:
+        return False
+    q = quo[0]
+    return isinstance(q, ast.BinOp) and isinstance(q.op, ast.Div) and norm(q.right) == step \
+        and isinstance(q.left, ast.BinOp) and isinstance(q.left.op, ast.Sub) \
+        and norm(q.left.left) == hi and norm(q.left.right) == lo
 
 
 def run(ctx):
@@ -377,6 +399,7 @@ def run(ctx):
             and norm(rets[0].value) == norm(aug[0].target) and \
             'ph=ph' in norm(aug[0].value).replace(' ', '') and \
             'reference=reference' in norm(aug[0].value).replace(' ', '')
+    common.check_charge_sum_unconditional(ctx, 'C10.R4', prog)
     ctx.ob('C10.R4', 'folding-energy:sum-over-all-groups', sum_ok,
            'the conformation energy is the plain sum over all groups, at the same pH and '
            'reference, starting from 0', cc, cfe)
